@@ -1,6 +1,9 @@
 (* MV.Kernel.Suspend — C04: the suspension of an actor's mailbox is lifted only by (i) a supervisor applying the
    Resume directive to that actor, (ii) the completion of its restart, or (iii) the start of its termination —
    and by nothing else, in every step from every well-formed state, for every role table.
+   A Resume decision travels as a queued request (SResumeReq) that the actor applies itself, and only while it is
+   alive: the statement therefore carries "no resume request is pending at an object with that address" (nrp) along
+   with the suspension flag — a request becomes pending only in a step that shows the supervisor's Resume decision.
    Together with: a suspended mailbox pops no user message, and a user message is only ever handled by the step
    of the mailbox that has it in flight, this is the mechanism behind "the failing actor handles no further user
    message until its supervisor has decided". *)
@@ -20,14 +23,49 @@ Definition marker (t : ref) (o : list obs) : bool := existsb (marker1 t) o.
 Lemma marker_app t a b : marker t (a ++ b) = marker t a || marker t b.
 Proof. apply existsb_app. Qed.
 
-(* object u (address t) stays suspended *)
+(* a supervisor's Resume decision travels as a queued request: is one pending at this object? *)
+Definition is_rq (e : env smsg) : bool := match e_msg e with SResumeReq => true | _ => false end.
+Definition rq_free (a : actor) : Prop :=
+  forallb (fun e => negb (is_rq e)) (a_sysq a) = true /\
+  match a_inflight a with Some (MS e) => is_rq e = false | _ => True end.
+(* no resume request is pending at any object that carries address t *)
+Definition nrp (t : ref) (s : kstate) : Prop := forall x ax, get s x = Some ax -> a_tok ax = t -> rq_free ax.
+
+(* decidable form, for concrete states *)
+Definition rq_freeb (a : actor) : bool :=
+  forallb (fun e => negb (is_rq e)) (a_sysq a) && match a_inflight a with Some (MS e) => negb (is_rq e) | _ => true end.
+Definition nrpb (t : ref) (s : kstate) : bool := forallb (fun a => negb (a_tok a =? t) || rq_freeb a) (actors s).
+Lemma nrpb_sound t s : nrpb t s = true -> nrp t s.
+Proof.
+  intros H x ax Hx Tx. unfold nrpb in H. rewrite forallb_forall in H. specialize (H ax (nth_error_In _ _ Hx)).
+  rewrite Tx, Z.eqb_refl in H. cbn [negb orb] in H. unfold rq_freeb in H. apply andb_true_iff in H. destruct H as [H1 H2].
+  split; [exact H1|]. destruct (a_inflight ax) as [[e|e]|]; [apply negb_true_iff; exact H2|exact I|exact I].
+Qed.
+
+(* object u (address t) stays suspended, and no resume request for address t becomes pending *)
 Definition keeps (u : nat) (t : ref) (s s' : kstate) : Prop :=
-  forall a, get s u = Some a -> a_tok a = t -> a_susp a = true ->
-  exists a', get s' u = Some a' /\ a_tok a' = t /\ a_susp a' = true.
+  (forall a, get s u = Some a -> a_tok a = t -> a_susp a = true ->
+     exists a', get s' u = Some a' /\ a_tok a' = t /\ a_susp a' = true) /\
+  (nrp t s -> nrp t s').
 (* ... or the step shows a marker *)
-Definition SQ (u : nat) (t : ref) (s s' : kstate) (o : list obs) : Prop :=
-  forall a, get s u = Some a -> a_tok a = t -> a_susp a = true ->
-  (exists a', get s' u = Some a' /\ a_tok a' = t /\ a_susp a' = true) \/ marker t o = true.
+Definition SQ (u : nat) (t : ref) (s s' : kstate) (o : list obs) : Prop := keeps u t s s' \/ marker t o = true.
+
+Lemma rq_free_push a e : is_rq e = false -> rq_free a -> rq_free (w_sysq (a_sysq a ++ [e]) a).
+Proof.
+  intros He [Hq Hi]. split; [|exact Hi]. cbn [a_sysq w_sysq]. rewrite forallb_app, Hq. cbn [forallb]. rewrite He. reflexivity.
+Qed.
+Lemma rq_free_noinflight a : rq_free a -> rq_free (w_inflight None a).
+Proof. intros [Hq _]. split; [exact Hq|exact I]. Qed.
+Lemma pop1_rq a : rq_free a -> rq_free (pop1 a).
+Proof.
+  intros [Hq Hi]. unfold pop1. destruct (a_inflight a) as [m|] eqn:Em; [split; [exact Hq|rewrite Em; exact Hi]|].
+  destruct (a_sysq a) as [|e rest] eqn:Es.
+  - destruct (a_susp a); [split; [rewrite Es; reflexivity|rewrite Em; exact I]|].
+    destruct (a_userq a); [split; [rewrite Es; reflexivity|rewrite Em; exact I]|].
+    split; [cbn [a_sysq w_inflight w_userq]; rewrite Es; reflexivity|exact I].
+  - cbn [forallb] in Hq. apply andb_true_iff in Hq. destruct Hq as [He Hr].
+    split; [exact Hr|]. cbn [a_inflight w_inflight]. apply negb_true_iff. exact He.
+Qed.
 
 Section S.
 Variable roles : list role.
@@ -35,56 +73,83 @@ Variable u : nat.
 Variable t : ref.
 
 Lemma keeps_refl s : keeps u t s s.
-Proof. intros a H1 H2 H3. exists a. auto. Qed.
+Proof. split; [intros a H1 H2 H3; exists a; auto|auto]. Qed.
 Lemma keeps_trans s1 s2 s3 : keeps u t s1 s2 -> keeps u t s2 s3 -> keeps u t s1 s3.
-Proof. intros K1 K2 a H1 H2 H3. destruct (K1 a H1 H2 H3) as (a2 & G2 & T2 & S2). exact (K2 a2 G2 T2 S2). Qed.
+Proof.
+  intros [K1 N1] [K2 N2]. split; [|auto]. intros a H1 H2 H3. destruct (K1 a H1 H2 H3) as (a2 & G2 & T2 & S2). exact (K2 a2 G2 T2 S2).
+Qed.
 Lemma SQ_of_keeps s s' o : keeps u t s s' -> SQ u t s s' o.
-Proof. intros K a H1 H2 H3. left. exact (K a H1 H2 H3). Qed.
+Proof. intros K. left. exact K. Qed.
 Lemma SQ_trans s1 s2 s3 o1 o2 : SQ u t s1 s2 o1 -> SQ u t s2 s3 o2 -> SQ u t s1 s3 (o1 ++ o2).
 Proof.
-  intros Q1 Q2 a H1 H2 H3. rewrite marker_app. destruct (Q1 a H1 H2 H3) as [(a2 & G2 & T2 & S2)|M].
-  - destruct (Q2 a2 G2 T2 S2) as [K|M]; [left; exact K|right; rewrite M; apply orb_true_r].
-  - right. rewrite M. reflexivity.
+  intros [K1|M1] [K2|M2]; unfold SQ; rewrite marker_app.
+  - left. eapply keeps_trans; eassumption.
+  - right. rewrite M2. apply orb_true_r.
+  - right. rewrite M1. reflexivity.
+  - right. rewrite M1. reflexivity.
 Qed.
 Lemma SQ_cons s s' x o : SQ u t s s' o -> SQ u t s s' (x :: o).
-Proof. intros Q a H1 H2 H3. destruct (Q a H1 H2 H3) as [K|M]; [left; exact K|right]. cbn [marker existsb]. unfold marker in M. rewrite M. apply orb_true_r. Qed.
+Proof. intros [K|M]; [left; exact K|right]. cbn [marker existsb]. unfold marker in M. rewrite M. apply orb_true_r. Qed.
 Lemma SQ_marker s s' o : marker t o = true -> SQ u t s s' o.
-Proof. intros M a _ _ _. right. exact M. Qed.
+Proof. intros M. right. exact M. Qed.
 
 Lemma keeps_same_actors s s' : actors s' = actors s -> keeps u t s s'.
-Proof. intros E a H1 H2 H3. exists a. unfold get in *. rewrite E. auto. Qed.
-
-Lemma keeps_put s w a0 b : get s w = Some a0 -> a_tok b = a_tok a0 -> (a_susp a0 = true -> a_susp b = true) -> keeps u t s (put s w b).
 Proof.
-  intros Hw Ht Hs a H1 H2 H3. destruct (Nat.eq_dec w u) as [->|Hne].
-  - rewrite Hw in H1. inversion H1; subst. exists b. split; [eapply get_put_same; exact Hw|]. split; [congruence|auto].
-  - exists a. split; [rewrite get_put_other by assumption; exact H1|auto].
+  intros E. split.
+  - intros a H1 H2 H3. exists a. unfold get in *. rewrite E. auto.
+  - intros N x ax Hx. apply (N x ax). unfold get in *. rewrite <- E. exact Hx.
 Qed.
-Lemma keeps_upd_actor s w f : (forall a, a_tok (f a) = a_tok a /\ (a_susp a = true -> a_susp (f a) = true)) -> keeps u t s (upd_actor s w f).
+
+Lemma keeps_put s w a0 b : get s w = Some a0 -> a_tok b = a_tok a0 -> (a_susp a0 = true -> a_susp b = true) ->
+  (a_tok a0 = t -> rq_free a0 -> rq_free b) -> keeps u t s (put s w b).
+Proof.
+  intros Hw Ht Hs Hq. split.
+  - intros a H1 H2 H3. destruct (Nat.eq_dec w u) as [->|Hne].
+    + rewrite Hw in H1. inversion H1; subst. exists b. split; [eapply get_put_same; exact Hw|]. split; [congruence|auto].
+    + exists a. split; [rewrite get_put_other by assumption; exact H1|auto].
+  - intros N x ax Hx Tx. destruct (Nat.eq_dec w x) as [->|Hne].
+    + rewrite (get_put_same s x b a0 Hw) in Hx. inversion Hx; subst ax. apply Hq; [congruence|apply (N x a0 Hw); congruence].
+    + rewrite get_put_other in Hx by assumption. exact (N x ax Hx Tx).
+Qed.
+Lemma keeps_upd_actor s w f : (forall a, a_tok (f a) = a_tok a /\ (a_susp a = true -> a_susp (f a) = true) /\ (rq_free a -> rq_free (f a))) -> keeps u t s (upd_actor s w f).
 Proof.
   intros Hf. unfold upd_actor. destruct (get s w) as [a0|] eqn:E; [|apply keeps_refl].
-  destruct (Hf a0) as [H1 H2]. eapply keeps_put; eauto.
+  destruct (Hf a0) as (H1 & H2 & H3). eapply keeps_put; eauto.
 Qed.
-Ltac ks := intros; split; [reflexivity|auto].
+(* an update of an object that does not carry address t *)
+Lemma keeps_upd_other s w f aw : get s w = Some aw -> a_tok aw <> t -> (forall a, a_tok (f a) = a_tok a) -> keeps u t s (upd_actor s w f).
+Proof.
+  intros Hw Hne Hf. unfold upd_actor. rewrite Hw. split.
+  - intros a H1 H2 H3. destruct (Nat.eq_dec w u) as [->|Hn].
+    + rewrite Hw in H1. inversion H1; subst. contradiction.
+    + exists a. split; [rewrite get_put_other by assumption; exact H1|auto].
+  - intros N x ax Hx Tx. destruct (Nat.eq_dec w x) as [->|Hn].
+    + rewrite (get_put_same s x (f aw) aw Hw) in Hx. inversion Hx; subst ax. rewrite Hf in Tx. contradiction.
+    + rewrite get_put_other in Hx by assumption. exact (N x ax Hx Tx).
+Qed.
+Ltac ks := intros; split; [reflexivity|split; [auto|first [intros Hq; exact Hq|apply rq_free_noinflight]]].
 
-(* a system message other than Resume never lifts a suspension *)
-Lemma keeps_push_sys s w e : e_msg e <> SResume -> keeps u t s (push_sys s w e).
-Proof. intros Hne. unfold push_sys. apply keeps_upd_actor. intros a. destruct (e_msg e); try congruence; split; try reflexivity; auto. Qed.
+(* a system message other than Resume never lifts a suspension; other than a resume request, it leaves none pending *)
+Lemma keeps_push_sys s w e : e_msg e <> SResume -> e_msg e <> SResumeReq -> keeps u t s (push_sys s w e).
+Proof.
+  intros Hne Hnq. unfold push_sys. apply keeps_upd_actor. intros a.
+  assert (Hr : is_rq e = false) by (unfold is_rq; destruct (e_msg e); try reflexivity; congruence).
+  destruct (e_msg e); try congruence; (split; [reflexivity|split; [auto|]]);
+    first [intros Hq; exact Hq|apply rq_free_push; exact Hr].
+Qed.
 
-(* Resume delivered to ANOTHER address does not touch u (registry well-formedness) *)
-Lemma keeps_deliver_sys_other s t' snd m : RI s -> (m <> SResume \/ t' <> t) -> keeps u t s (deliver_sys s t' snd m).
+(* anything delivered to ANOTHER address does not touch the objects of address t (registry well-formedness) *)
+Lemma keeps_deliver_sys_other s t' snd m : RI s -> ((m <> SResume /\ m <> SResumeReq) \/ t' <> t) -> keeps u t s (deliver_sys s t' snd m).
 Proof.
   intros HR Hor. unfold deliver_sys. destruct (lookup t' (registry s)) as [w|] eqn:El.
-  - destruct Hor as [Hm|Ht]; [apply keeps_push_sys; exact Hm|].
-    destruct (HR t' w El) as (aw & Haw & Htw).
-    intros a H1 H2 H3. destruct (Nat.eq_dec w u) as [->|Hne].
-    + rewrite Haw in H1. inversion H1; subst. contradiction.
-    + exists a. split; [|auto]. unfold push_sys, upd_actor. rewrite Haw. rewrite get_put_other by assumption. exact H1.
+  - destruct Hor as [[Hm Hq]|Ht]; [apply keeps_push_sys; assumption|].
+    destruct (HR t' w El) as (aw & Haw & Htw). unfold push_sys.
+    eapply keeps_upd_other; [exact Haw|congruence|]. intros a. destruct (e_msg (mk_env snd t' m)); reflexivity.
   - destruct m; try apply keeps_refl. destruct (lookup snd (registry s)); [apply keeps_push_sys; cbn; discriminate|apply keeps_refl].
 Qed.
-Lemma keeps_deliver_sys s t' snd m : m <> SResume -> keeps u t s (deliver_sys s t' snd m).
+Lemma keeps_deliver_sys s t' snd m : m <> SResume -> m <> SResumeReq -> keeps u t s (deliver_sys s t' snd m).
 Proof.
-  intros Hm. unfold deliver_sys. destruct (lookup t' (registry s)); [apply keeps_push_sys; exact Hm|].
+  intros Hm Hq. unfold deliver_sys. destruct (lookup t' (registry s)); [apply keeps_push_sys; assumption|].
   destruct m; try apply keeps_refl. destruct (lookup snd (registry s)); [apply keeps_push_sys; cbn; discriminate|apply keeps_refl].
 Qed.
 
@@ -99,11 +164,11 @@ Lemma keeps_deliver_user s t' snd m s' o : deliver_user s t' snd m = (s', o) -> 
 Proof.
   unfold deliver_user. destruct (lookup t' (registry s)) as [w|]; [|apply keeps_abyss_user].
   destruct (get s w) as [a|] eqn:E; [|apply keeps_abyss_user].
-  intros H; inversion H; subst. eapply keeps_put; [exact E|reflexivity|auto].
+  intros H; inversion H; subst. eapply keeps_put; [exact E|reflexivity|auto|intros _ Hq; exact Hq].
 Qed.
 Lemma keeps_terminate s self t' g s' o : terminate s self t' g = (s', o) -> keeps u t s s'.
 Proof.
-  unfold terminate. destruct g; [apply keeps_deliver_user|]. intros H; inversion H; subst. apply keeps_deliver_sys. discriminate.
+  unfold terminate. destruct g; [apply keeps_deliver_user|]. intros H; inversion H; subst. apply keeps_deliver_sys; discriminate.
 Qed.
 Lemma keeps_terminate_all cs : forall s self g s' o, terminate_all s self cs g = (s', o) -> keeps u t s s'.
 Proof.
@@ -115,18 +180,28 @@ Qed.
 Lemma keeps_notify_all ws : forall s self, keeps u t s (notify_all s self ws).
 Proof.
   induction ws as [|w rest IH]; intros s self; cbn [notify_all]; [apply keeps_refl|].
-  eapply keeps_trans; [|apply IH]. apply keeps_deliver_sys. discriminate.
+  eapply keeps_trans; [|apply IH]. apply keeps_deliver_sys; discriminate.
 Qed.
 Lemma keeps_restart_all cs : forall s self, keeps u t s (restart_all s self cs).
 Proof.
   induction cs as [|c rest IH]; intros s self; cbn [restart_all]; [apply keeps_refl|].
-  eapply keeps_trans; [|apply IH]. apply keeps_deliver_sys. discriminate.
+  eapply keeps_trans; [|apply IH]. apply keeps_deliver_sys; discriminate.
 Qed.
-Lemma keeps_append s x : keeps u t s (set_actors s (actors s ++ [x])).
+Lemma keeps_append s x : rq_free x -> keeps u t s (set_actors s (actors s ++ [x])).
 Proof.
-  intros a H1 H2 H3. exists a. split; [|auto]. unfold get, set_actors in *; cbn [actors].
-  rewrite nth_error_app1; [exact H1|]. apply nth_error_Some. congruence.
+  intros Hx. split.
+  - intros a H1 H2 H3. exists a. split; [|auto]. unfold get, set_actors in *; cbn [actors].
+    rewrite nth_error_app1; [exact H1|]. apply nth_error_Some. congruence.
+  - intros N y ay Hy Ty. unfold get, set_actors in Hy; cbn [actors] in Hy.
+    destruct (Nat.lt_ge_cases y (length (actors s))) as [Hlt|Hge].
+    + rewrite nth_error_app1 in Hy by exact Hlt. exact (N y ay Hy Ty).
+    + rewrite nth_error_app2 in Hy by exact Hge. destruct (y - length (actors s))%nat as [|k]; cbn in Hy; [|destruct k; discriminate].
+      inversion Hy; subst ay. exact Hx.
 Qed.
+Lemma rq_free_new tok parent r inst : rq_free (new_actor tok parent r inst).
+Proof. split; [reflexivity|exact I]. Qed.
+Lemma rq_free_new_t tok parent r inst : rq_free (w_st Terminated (new_actor tok parent r inst)).
+Proof. split; [reflexivity|exact I]. Qed.
 Lemma keeps_stop s w self t' s' o p : stop_if_parent_gone s w self t' = (s', o, p) -> keeps u t s s'.
 Proof.
   unfold stop_if_parent_gone. destruct (get s w) as [pa|]; [|intros H; inversion H; subst; apply keeps_refl].
@@ -138,9 +213,9 @@ Proof.
   unfold spawn. destruct (provide s t') as [s1 inst] eqn:Ep.
   assert (K1 : keeps u t s s1) by (apply keeps_same_actors; unfold provide in Ep; inversion Ep; subst; reflexivity).
   set (s2 := set_actors s1 (actors s1 ++ [new_actor t' self r inst])).
-  assert (K2 : keeps u t s s2) by (eapply keeps_trans; [exact K1|apply keeps_append]).
+  assert (K2 : keeps u t s s2) by (eapply keeps_trans; [exact K1|apply keeps_append, rq_free_new]).
   change (registry s2) with (registry s1) in *. destruct (lookup t' (registry s1)).
-  - intros H; inversion H; subst. eapply keeps_trans; [exact K1|apply keeps_append].
+  - intros H; inversion H; subst. eapply keeps_trans; [exact K1|apply keeps_append, rq_free_new_t].
   - intros H. eapply keeps_trans; [|eapply keeps_stop; exact H]. eapply keeps_trans; [exact K2|].
     eapply keeps_trans; [|apply keeps_deliver_sys; discriminate]. eapply keeps_trans; [|apply keeps_upd_actor; ks].
     apply keeps_same_actors. reflexivity.
@@ -150,7 +225,7 @@ Proof.
   unfold escalate. destruct (get s w) as [a|]; [|intros H; inversion H; subst; apply keeps_refl].
   destruct (a_parent a =? rNone); intros H; inversion H; subst.
   - apply keeps_same_actors. reflexivity.
-  - apply keeps_deliver_sys. discriminate.
+  - apply keeps_deliver_sys; discriminate.
 Qed.
 Lemma keeps_report_abnormal s w s' o p : report_abnormal roles s w = (s', o, p) -> keeps u t s s'.
 Proof.
@@ -183,8 +258,8 @@ Proof.
     intros H; inversion H; subst. eapply keeps_trans; [eapply NS; reflexivity|eapply keeps_send_each; exact E].
   - destruct (spawn s w (a_tok a) t0 r) as [[s1 o1] p1] eqn:E. intros H; inversion H; subst. eapply keeps_spawn; exact E.
   - destruct (terminate s (a_tok a) t0 g) as [s1 o1] eqn:E. intros H; inversion H; subst. eapply keeps_terminate; exact E.
-  - intros H; inversion H; subst. apply keeps_deliver_sys. discriminate.
-  - intros H; inversion H; subst. apply keeps_deliver_sys. discriminate.
+  - intros H; inversion H; subst. apply keeps_deliver_sys; discriminate.
+  - intros H; inversion H; subst. apply keeps_deliver_sys; discriminate.
   - destruct (report_abnormal roles s w) as [[s1 o1] p1] eqn:E. intros H; inversion H; subst. eapply keeps_report_abnormal; exact E.
   - intros H; inversion H; subst. apply keeps_refl.
 Qed.
@@ -230,7 +305,7 @@ Proof.
     { apply keeps_trans with (s2 := sr); [apply keeps_same_actors; reflexivity|apply keeps_notify_all]. }
     destruct (a_parent a =? rNone); intros H; inversion H; subst.
     + eapply keeps_trans; [exact Kn|apply keeps_same_actors; reflexivity].
-    + eapply keeps_trans; [exact Kn|]. apply keeps_deliver_sys. discriminate.
+    + eapply keeps_trans; [exact Kn|]. apply keeps_deliver_sys; discriminate.
 Qed.
 
 Hypothesis t_not_sys : is_sys t = false.
@@ -315,7 +390,7 @@ Lemma SQ_apply_directive s w r d snd s' o p : RI s -> apply_directive roles s w 
 Proof.
   intros HR. unfold apply_directive. destruct (get s w) as [a|]; [|intros H; inversion H; subst; apply SQ_of_keeps, keeps_refl].
   destruct d.
-  - intros H; inversion H; subst. apply SQ_of_keeps. apply keeps_deliver_sys. discriminate.
+  - intros H; inversion H; subst. apply SQ_of_keeps. apply keeps_deliver_sys; discriminate.
   - destruct (terminate s (a_tok a) (ar_vref r) false) as [s1 o1] eqn:E1.
     destruct (try_terminated roles s1 w snd) as [[s2 o2] p2] eqn:E2. intros H; inversion H; subst. apply SQ_of_keeps.
     eapply keeps_trans; [eapply keeps_terminate; exact E1|eapply keeps_try_terminated; exact E2].
@@ -334,11 +409,12 @@ Proof.
   intros H. apply SQ_of_keeps. eapply keeps_escalate; exact H.
 Qed.
 
-Lemma SQ_process_sys s w e s' o p : RI s -> process_sys roles s w e = (s', o, p) -> SQ u t s s' o.
+Lemma SQ_process_sys s w e s' o p : RI s -> (forall a, get s w = Some a -> a_tok a = t -> is_rq e = false) ->
+  process_sys roles s w e = (s', o, p) -> SQ u t s s' o.
 Proof.
-  intros HR. unfold process_sys. destruct (get s w) as [a|] eqn:Ea; [|intros H; inversion H; subst; apply SQ_of_keeps, keeps_refl].
+  intros HR Hrq. unfold process_sys. destruct (get s w) as [a|] eqn:Ea; [|intros H; inversion H; subst; apply SQ_of_keeps, keeps_refl].
   match goal with |- context [if ?d then _ else _] => destruct d end; [intros H; inversion H; subst; apply SQ_of_keeps, keeps_refl|].
-  destruct (e_msg e).
+  destruct (e_msg e) eqn:Em.
   - (* SLaunch *) apply bind_SQ.
     + intros s1 o1 p1 E. eapply handle_SQ_RI; [exact HR|exact E].
     + intros s1 s2 o2 p2 _ H; inversion H; subst. apply SQ_of_keeps. apply keeps_upd_actor; ks.
@@ -397,7 +473,7 @@ Proof.
     assert (R0 : RI s0) by (eapply RI_upd_status; [exact HR|exact Ea|congruence]).
     assert (R1 : RI s1) by (eapply RI_ext; [exact R0|apply ext_of_keep; [apply keep_deliver_sys|apply regsame_deliver_sys]]).
     assert (K1 : keeps u t s s1).
-    { apply keeps_trans with (s2 := s0); [unfold s0; apply keeps_upd_actor; ks|]. unfold s1. apply keeps_deliver_sys. discriminate. }
+    { apply keeps_trans with (s2 := s0); [unfold s0; apply keeps_upd_actor; ks|]. unfold s1. apply keeps_deliver_sys; discriminate. }
     intros H. eapply SQ_trans with (o1 := []) (s2 := s1); [apply SQ_of_keeps; exact K1|]. revert H. apply bind_SQ.
     + intros sa oa pa E. eapply handle_SQ_RI; [exact R1|exact E].
     + intros sa sb ob pb Ra. destruct (get sa w) as [a2|]; [|intros H; inversion H; subst; apply SQ_of_keeps, keeps_refl].
@@ -409,11 +485,14 @@ Proof.
   - apply SQ_on_accident; exact HR.
   - (* SWatch *) destruct (e_snd e =? a_parent a); [intros H; inversion H; subst; apply SQ_of_keeps, keeps_refl|].
     destruct (st_ge_terminating (a_st a)); intros H; inversion H; subst; apply SQ_of_keeps.
-    + apply keeps_deliver_sys. discriminate.
+    + apply keeps_deliver_sys; discriminate.
     + apply keeps_upd_actor; ks.
   - intros H; inversion H; subst. apply SQ_of_keeps. apply keeps_upd_actor; ks.
   - intros H; inversion H; subst. apply SQ_of_keeps, keeps_refl.
   - intros H; inversion H; subst. apply SQ_of_keeps, keeps_refl.
+  - (* SResumeReq: applied by a living actor to itself; by hypothesis not an object of address t *)
+    destruct (a_st a); intros H; inversion H; subst; apply SQ_of_keeps; try apply keeps_refl.
+    apply keeps_deliver_sys_other; [exact HR|right]. intros Ht. specialize (Hrq a eq_refl Ht). unfold is_rq in Hrq. rewrite Em in Hrq. discriminate.
 Qed.
 
 Lemma keeps_process_user s w e s' o p : process_user roles s w e = (s', o, p) -> keeps u t s s'.
@@ -427,14 +506,19 @@ Proof.
     + intros H; inversion H; subst. apply keeps_refl.
 Qed.
 
-Lemma SQ_run_actor s w s' o : RI s -> run_actor roles s w = Some (s', o) -> SQ u t s s' o.
+Lemma SQ_run_actor s w s' o : RI s -> nrp t s -> run_actor roles s w = Some (s', o) -> SQ u t s s' o.
 Proof.
-  intros HR. unfold run_actor. destruct (get s w) as [a|]; [|discriminate]. destruct (a_inflight a) as [m|]; [|discriminate].
+  intros HR HN. unfold run_actor. destruct (get s w) as [a|] eqn:Eaw; [|discriminate]. destruct (a_inflight a) as [m|] eqn:Eim; [|discriminate].
   set (s0 := upd_actor s w (w_inflight None)).
   assert (K0 : keeps u t s s0) by (apply keeps_upd_actor; ks).
   assert (R0 : RI s0) by (eapply RI_ext; [exact HR|apply ext_of_keep; [apply keep_upd_actor; kp|apply regsame_upd_actor]]).
+  assert (G0 : get s0 w = Some (w_inflight None a)) by (apply get_upd_actor_same; exact Eaw).
   destruct m as [e|e].
-  - destruct (process_sys roles s0 w e) as [[s1 o1] p] eqn:E1. apply (SQ_process_sys _ _ _ _ _ _ R0) in E1.
+  - destruct (process_sys roles s0 w e) as [[s1 o1] p] eqn:E1.
+    assert (Hrq : forall a0, get s0 w = Some a0 -> a_tok a0 = t -> is_rq e = false).
+    { intros a0 Ha0 Ht0. rewrite G0 in Ha0. inversion Ha0; subst a0. cbn [a_tok w_inflight] in Ht0.
+      destruct (HN w a Eaw Ht0) as [_ Hi]. rewrite Eim in Hi. exact Hi. }
+    apply (SQ_process_sys _ _ _ _ _ _ R0 Hrq) in E1.
     assert (Q01 : SQ u t s s1 o1) by (eapply SQ_trans with (o1 := []); [apply SQ_of_keeps; exact K0|exact E1]).
     destruct p.
     + destruct (crashed s1).
@@ -459,15 +543,19 @@ Proof.
 Qed.
 Lemma keeps_normalize s : keeps u t s (normalize s).
 Proof.
-  intros a H1 H2 H3. exists (pop1 a). destruct (pop1_susp a) as [P1 P2]. split; [|split; congruence].
-  unfold normalize, get, set_actors in *; cbn [actors]. rewrite nth_error_map, H1. reflexivity.
+  split.
+  - intros a H1 H2 H3. exists (pop1 a). destruct (pop1_susp a) as [P1 P2]. split; [|split; congruence].
+    unfold normalize, get, set_actors in *; cbn [actors]. rewrite nth_error_map, H1. reflexivity.
+  - intros N x ax Hx Tx. unfold normalize, get, set_actors in Hx; cbn [actors] in Hx. rewrite nth_error_map in Hx.
+    destruct (nth_error (actors s) x) as [a0|] eqn:E0; [|discriminate]. cbn in Hx. inversion Hx; subst ax.
+    destruct (pop1_susp a0) as [_ P2]. apply pop1_rq. apply (N x a0 E0). congruence.
 Qed.
 
-Theorem SQ_kstep s l s' o : RI s -> kstep roles s l = Some (s', o) -> SQ u t s s' o.
+Theorem SQ_kstep s l s' o : RI s -> nrp t s -> kstep roles s l = Some (s', o) -> SQ u t s s' o.
 Proof.
-  intros HR. destruct l; cbn [kstep].
+  intros HR HN. destruct l; cbn [kstep].
   - destruct (run_actor roles s (Z.to_nat u0)) as [[s1 o1]|] eqn:E; [|discriminate]. intros H; inversion H; subst.
-    replace o with (o ++ []) by apply app_nil_r. eapply SQ_trans; [eapply SQ_run_actor; [exact HR|exact E]|apply SQ_of_keeps, keeps_normalize].
+    replace o with (o ++ []) by apply app_nil_r. eapply SQ_trans; [eapply SQ_run_actor; [exact HR|exact HN|exact E]|apply SQ_of_keeps, keeps_normalize].
   - destruct (next_serial s) as [s1 k] eqn:En. destruct (deliver_user s1 t0 rNone (UProbe n k)) as [s2 o2] eqn:E.
     intros H; inversion H; subst. apply SQ_of_keeps. eapply keeps_trans; [|apply keeps_normalize].
     eapply keeps_trans; [|eapply keeps_deliver_user; exact E]. apply keeps_same_actors. unfold next_serial in En. inversion En; subst. reflexivity.
@@ -485,17 +573,32 @@ Qed.
 
 End S.
 
-(* C04, mechanism: in a well-formed state, an actor (not one of the two system actors) whose mailbox is suspended is
-   still suspended after any step, unless that step shows that a supervisor applied Resume to its address, or an
-   actor with its address completed a restart (own OnTerminated on the old instance) or began to terminate. *)
+(* C04, mechanism: in a well-formed state, an actor (not one of the two system actors) whose mailbox is suspended, with no
+   resume request pending for its address, is still suspended — and still no request is pending — after any step, unless
+   that step shows that a supervisor applied Resume to its address, or an actor with its address completed a restart (own
+   OnTerminated on the old instance) or began to terminate. *)
 Theorem suspension_lifted_only_by_directive roles s l s' o u a :
-  RI s -> get s u = Some a -> is_sys (a_tok a) = false -> a_susp a = true -> kstep roles s l = Some (s', o) ->
-  (exists a', get s' u = Some a' /\ a_tok a' = a_tok a /\ a_susp a' = true) \/ marker (a_tok a) o = true.
-Proof. intros HR Hg Hs Hsu Hk. exact (SQ_kstep roles u (a_tok a) Hs s l s' o HR Hk a Hg eq_refl Hsu). Qed.
+  RI s -> get s u = Some a -> is_sys (a_tok a) = false -> a_susp a = true -> nrp (a_tok a) s -> kstep roles s l = Some (s', o) ->
+  ((exists a', get s' u = Some a' /\ a_tok a' = a_tok a /\ a_susp a' = true) /\ nrp (a_tok a) s') \/ marker (a_tok a) o = true.
+Proof.
+  intros HR Hg Hs Hsu HN Hk. destruct (SQ_kstep roles u (a_tok a) Hs s l s' o HR HN Hk) as [[K N]|M]; [left|right; exact M].
+  split; [exact (K a Hg eq_refl Hsu)|exact (N HN)].
+Qed.
 
 (* the same in every state reachable from the freshly started system *)
 Theorem suspension_lifted_only_by_directive_reachable roles ls s os l s' o u a :
   krun roles kinit ls = Some (s, os) ->
-  get s u = Some a -> is_sys (a_tok a) = false -> a_susp a = true -> kstep roles s l = Some (s', o) ->
-  (exists a', get s' u = Some a' /\ a_tok a' = a_tok a /\ a_susp a' = true) \/ marker (a_tok a) o = true.
+  get s u = Some a -> is_sys (a_tok a) = false -> a_susp a = true -> nrp (a_tok a) s -> kstep roles s l = Some (s', o) ->
+  ((exists a', get s' u = Some a' /\ a_tok a' = a_tok a /\ a_susp a' = true) /\ nrp (a_tok a) s') \/ marker (a_tok a) o = true.
 Proof. intros Hr. apply suspension_lifted_only_by_directive. eapply RI_reachable; [apply RI_init|exact Hr]. Qed.
+
+(* a resume request for an address becomes pending only in a step that shows a marker for it (the supervisor's decision);
+   nothing is pending in the freshly started system *)
+Theorem resume_request_only_by_directive roles s l s' o t :
+  RI s -> is_sys t = false -> nrp t s -> kstep roles s l = Some (s', o) -> nrp t s' \/ marker t o = true.
+Proof. intros HR Hs HN Hk. destruct (SQ_kstep roles 0%nat t Hs s l s' o HR HN Hk) as [[_ N]|M]; [left; exact (N HN)|right; exact M]. Qed.
+Lemma nrp_init t : nrp t kinit.
+Proof.
+  intros x ax Hx _. unfold get, kinit in Hx; cbn [actors] in Hx.
+  destruct x as [|[|x]]; cbn in Hx; [inversion Hx; subst; split; [reflexivity|exact I]|inversion Hx; subst; split; [reflexivity|exact I]|destruct x; discriminate].
+Qed.
